@@ -734,7 +734,7 @@ pub fn run(ctx: Ctx) -> ! {
     }
     // (variant, length, wall cap)
     let plan: Vec<(&str, usize, f64)> = if ctx.quick() {
-        vec![("full-div2", 3, 60.0), ("full-div18", 3, 60.0), ("core-div2", 4, 60.0)]
+        vec![("full-div2", 3, 60.0), ("full-div18", 2, 20.0), ("core-div2", 4, 60.0)]
     } else {
         vec![("full-div2", 4, 900.0), ("full-div18", 3, 300.0), ("core-div2", 5, 900.0)]
     };
@@ -756,8 +756,9 @@ pub fn run(ctx: Ctx) -> ! {
     cov.insert("bounds".into(), json!(bounds));
     cov.insert("caps_hit".into(), json!(capped));
     let (r, x, c, n) = profile();
-    cov.insert("mean_us_per_transaction".into(), json!({"snapshot_restore": r, "execute": x, "post_checks": c, "transactions": n}));
-    println!("PROFILE mean us/tx: restore={r} execute={x} post={c} n={n}");
+    let cpu = process_cpu_s();
+    cov.insert("mean_us_per_transaction".into(), json!({"snapshot_restore": r, "execute": x, "post_checks": c, "transactions": n, "process_cpu_s": cpu, "cpu_ms_per_transaction": cpu * 1000.0 / n as f64}));
+    println!("PROFILE mean wall us/tx: restore={r} execute={x} post={c} n={n}; process cpu {cpu:.0} s = {:.2} ms cpu/tx", cpu * 1000.0 / n as f64);
     ctx.finish(
         Level::ModelChecking,
         "every instruction sequence up to the bound over the alphabet (after the fixed prelude that creates a 3 F bucket) is executed as one transaction on the real engine from the same snapshot, followed by the fixed tail (drop all proofs, deposit everything, withdraw the full amount and all ids again); a sequence is extended only if the engine executed all its instructions (marker fee lock observed in the receipt); non-trivial = sequences whose instructions all executed",
